@@ -13,6 +13,11 @@ SPEC = r'''
 // TRUSTED: VJavaStr stands in for java_string::JavaStr; mutf8(s) is its modified-UTF-8 encoding (uninterpreted); from_string_to_vec is assumed to return it
 #[verifier::external_body] pub struct VJavaStr { _p: () }
 pub uninterp spec fn mutf8(s: &VJavaStr) -> Seq<u8>;
+pub uninterp spec fn jstr_len(s: &VJavaStr) -> usize;   // JavaStr::len: length of the in-memory representation (not of the modified-UTF-8 form)
+impl VJavaStr {
+    #[verifier::external_body] pub fn len(&self) -> (n: usize) ensures n == jstr_len(self) { unimplemented!() }
+    #[verifier::external_body] pub fn is_empty(&self) -> (b: bool) ensures b == (jstr_len(self) == 0) { unimplemented!() }
+}
 #[verifier::external_body]
 pub fn from_string_to_vec(s: &VJavaStr) -> (v: Vec<u8>)
     ensures v@ == mutf8(s),
